@@ -712,6 +712,9 @@ func (p *pp) handleMethods(verb rune) (handled bool) {
 }
 
 func (p *pp) printArg(arg interface{}, verb rune) {
+	if verifOn {
+		defer verifArg(p)()
+	}
 	t := reflect.TypeOf(arg)
 	if safeTypeRegistry[t] {
 		defer p.startSafeOverride().restore()
@@ -1110,6 +1113,9 @@ func (p *pp) doPrintf(format string, a []interface{}) {
 		// emitted by a nested printer are unsafe.
 		p.buf.SetMode(b.SafeEscaped)
 	}
+	if verifOn {
+		verifMode(p, "D", -1, -1)
+	}
 	end := len(format)
 	argNum := 0         // we process one argument per non-trivial format
 	afterIndex := false // previous item in format was an index like [3].
@@ -1290,6 +1296,9 @@ func (p *pp) doPrint(a []interface{}) {
 		// emitted by a nested printer are unsafe.
 		p.buf.SetMode(b.SafeEscaped)
 	}
+	if verifOn {
+		verifMode(p, "D", -1, -1)
+	}
 	prevString := false
 	for argNum, arg := range a {
 		isString := arg != nil && reflect.TypeOf(arg).Kind() == reflect.String
@@ -1309,6 +1318,9 @@ func (p *pp) doPrintln(a []interface{}) {
 		// CUSTOM: under Unsafe(), also the literals and punctuation
 		// emitted by a nested printer are unsafe.
 		p.buf.SetMode(b.SafeEscaped)
+	}
+	if verifOn {
+		verifMode(p, "D", -1, -1)
 	}
 	for argNum, arg := range a {
 		if argNum > 0 {
